@@ -4,8 +4,8 @@ import (
 	"fmt"
 	"os"
 	"path/filepath"
-	"strings"
 	"sort"
+	"strings"
 	"sync"
 	"time"
 
@@ -135,12 +135,12 @@ var allActions = []string{"ProcessTx", "MaybeAcceptTx", "CheckAccept", "RemoveTx
 func RunC10(ctx *vrun.Ctx) error { return runBoth(ctx, false) }
 
 type uniResult struct {
-	m      *Model
-	w      *Walker
-	err    error
-	tlcS   float64
-	replS  float64
-	finS   float64
+	m     *Model
+	w     *Walker
+	err   error
+	tlcS  float64
+	replS float64
+	finS  float64
 }
 
 func runBoth(ctx *vrun.Ctx, mining bool) error {
